@@ -806,6 +806,26 @@ func (e *Env) callExpr(ex *ast.CallExpr) (SVal, error) {
 			return mkBool("true"), nil
 		}
 		return mkBool(boolLit(lastA < firstB)), nil
+	case "watches":
+		// watches(EventPattern, ch): the (unique) matching select / poll event has ch among its channels, in any position
+		pat := e.resolveEventName(argStr(0))
+		want, err := e.eval(ex.Args[1])
+		if err != nil {
+			return SVal{}, err
+		}
+		for i := range e.Events {
+			if eventNameMatch(pat, e.Events[i].Name) {
+				var alts []string
+				for _, a := range e.Events[i].Args {
+					alts = append(alts, e.X.valEq(e.St, a, want))
+				}
+				if len(alts) == 0 {
+					return mkBool("false"), nil
+				}
+				return mkBool(or(alts...)), nil
+			}
+		}
+		return SVal{}, fmt.Errorf("watches(%s): no such event on this path", pat)
 	case "atevent":
 		// atevent(EventPattern, cell): the value of an operator cell when the (first) matching downstream call was made
 		pat := e.resolveEventName(argStr(0))
